@@ -10,6 +10,10 @@
 
 static inline double ABTI_get_wtime(void)
 {
+#ifdef ABT_VERIF
+    if (ABTI_verif_hooks.clock)
+        return ABTI_verif_hooks.clock();
+#endif
     ABTD_time t;
     ABTD_time_get(&t);
     return ABTD_time_read_sec(&t);
